@@ -123,7 +123,7 @@ Window(items, rev, off, lim) ==
   IN  IF lim >= 0 THEN Take(s, lim) ELSE s
 
 LoopItems(cx, v) ==
-  CASE v.k = "arr" -> [ok |-> TRUE, v |-> v.v]
+  CASE v.k = "arr" -> [ok |-> ~NilFree(v), v |-> v.v]
     [] v.k = "range" -> [ok |-> TRUE, v |-> RangeItems(v.a, v.b)]
     [] v.k = "map" ->
          LET pairs == [i \in 1..Len(v.v) |-> Arr(<<Str(v.v[i][1]), v.v[i][2]>>)] IN
